@@ -1065,14 +1065,14 @@ func (p *prop) runEnf(f []string) core.Outcome {
 				k, _ := strconv.Atoi(site)
 				if k < len(sites) && !foldEq(sites[k], rq.sni) {
 					class := "strict-sni-host-bypass"
-					if unicodeFoldOnly(rq.sni, sites[k]) {
+					if obsStrict && unicodeFoldOnly(rq.sni, sites[k]) {
 						class = clsUnicodeFold
 					}
 					fail(class, fmt.Sprintf("strict SNI-Host in effect, connection SNI %q, Host %q: request was routed to the handler of site %q, whose name does not select the same connection policies as that SNI", rq.sni, rq.host, sites[k]))
 				}
 			} else if m := wellFormedHost.FindStringSubmatch(rq.host); m != nil && !foldEq(m[1], rq.sni) {
 				class := "strict-sni-host-mismatch-reaches-handler"
-				if unicodeFoldOnly(rq.sni, m[1]) {
+				if obsStrict && unicodeFoldOnly(rq.sni, m[1]) {
 					class = clsUnicodeFold
 				}
 				fail(class, fmt.Sprintf("strict SNI-Host in effect, connection SNI %q, Host %q names %q: request reached the catch-all handler", rq.sni, rq.host, m[1]))
@@ -1247,7 +1247,7 @@ func (p *prop) runE2E(f []string) core.Outcome {
 	// client-auth site must never be entered
 	if res == "in:0" {
 		class := "client-auth-site-reached-without-certificate"
-		if unicodeFoldOnly(sni, e2eSites[0]) {
+		if obsStrict && unicodeFoldOnly(sni, e2eSites[0]) {
 			class = clsUnicodeFold
 		}
 		fail(class, fmt.Sprintf("connection SNI %q (policy %s, no client certificate), Host %q: request reached the handler of %s", sni, hs, host, e2eSites[0]))
